@@ -222,6 +222,55 @@ fn ift_table_cs(tbl: u8, compat: [u8; 16], default_enc: u8, prefix: &str, encs: 
     (v, out)
 }
 
+/// format-1 (glyph map) patch map: glyph g (1..=idx.len()) belongs to entry idx[g-1]; the application bit of entry i is
+/// bit i of the applied-entries bitmap (36 bytes into the table), so entries 8k..8k+7 SHARE a byte
+fn ift_table_format1(tbl: u8, compat: [u8; 16], prefix: &str, idx: &[u16], ng: usize, max_entry: u16) -> (Vec<u8>, Vec<Entry>) {
+    let mut v = vec![1u8];
+    be32(&mut v, 0);
+    v.extend_from_slice(&compat);
+    be16(&mut v, max_entry as u32);
+    be16(&mut v, max_entry as u32);
+    be24(&mut v, ng as u32);
+    let gmo = v.len();
+    be32(&mut v, 0);
+    be32(&mut v, 0); // feature map offset
+    let bitmap_start = v.len();
+    v.extend(std::iter::repeat(0u8).take((max_entry as usize + 1).div_ceil(8)));
+    let template = format!("{}/{{id}}", prefix);
+    be16(&mut v, template.len() as u32);
+    v.extend_from_slice(template.as_bytes());
+    v.push(3); // glyph keyed
+    let gm = v.len() as u32;
+    v[gmo..gmo + 4].copy_from_slice(&gm.to_be_bytes());
+    be16(&mut v, 1); // first mapped glyph
+    for g in 1..ng {
+        v.push(idx.get(g - 1).copied().unwrap_or(0) as u8);
+    }
+    let entries = idx
+        .iter()
+        .map(|i| Entry { uri: format!("{}/{}", prefix, base32hex(*i as u32)), tbl, enc: 3, bit: bitmap_start * 8 + *i as usize, compat })
+        .collect();
+    (v, entries)
+}
+fn cmap_table(n: usize) -> Vec<u8> {
+    use write_fonts::tables::cmap::Cmap;
+    let m = (1..=n).map(|g| (char::from_u32(0x40 + g as u32).unwrap(), read_fonts::types::GlyphId::new(g as u32)));
+    write_fonts::dump_table(&Cmap::from_mappings(m).unwrap()).unwrap()
+}
+/// glyph keyed scenario whose "IFT " table is a format-1 map with the given entry indices (bits of one or two bitmap bytes)
+fn gk_scenario_format1(rng: &mut Rng, idx: &[u16], long: bool, ng: usize, iftx: bool) -> GkScenario {
+    let (mut font, _) = glyph_font(rng, long, ng, 6);
+    font.tables.insert(tag(b"cmap"), cmap_table(idx.len()));
+    let (t, mut entries) = ift_table_format1(0, compat(1), "foo", idx, ng, 15);
+    font.tables.insert(IFT, t);
+    if iftx {
+        let (t2, e2) = ift_table(1, compat(7), 3, "fpp", &[None]);
+        font.tables.insert(IFTX, t2);
+        entries.extend(e2);
+    }
+    GkScenario { font, entries }
+}
+
 // ---------------------------------------------------------------- authoring: fonts
 #[derive(Clone)]
 struct FontSpec {
@@ -463,7 +512,8 @@ struct CallOut {
 }
 fn run_call(font: &[u8], entries: &[Entry], st: &St, fail_at: Option<usize>, kind: u8) -> Option<CallOut> {
     let fr = FontRef::new(font).ok()?;
-    let def = SubsetDefinition::codepoints([5u32].into_iter().collect());
+    // 5 selects every format-2 entry; 0x41.. are the codepoints of the format-1 (glyph map) scenarios
+    let def = SubsetDefinition::codepoints([5u32].into_iter().chain(0x41u32..0x60).collect());
     let g = PatchGroup::select_next_patches(fr, &def).ok()?;
     let uris: Vec<String> = g.uris().map(|s| s.to_string()).collect();
     let mut inv = None;
@@ -2004,7 +2054,7 @@ fn main() {
         "check_case",
         if thorough { 700 } else { 350 },
     );
-    let budget = if thorough { 40_000 } else { 5_200 };
+    let budget = if thorough { 40_000 } else { 5_600 };
     {
         let mut cx = Ctx { cw: &mut cw, st: &mut st, budget, reported: BTreeMap::new() };
         // glyph keyed families
@@ -2023,6 +2073,22 @@ fn main() {
             if with_gvar { cx.st.count("family.gvar"); }
             cx.st.count(if agree { "family.agree" } else { "family.disagree" });
             cx.st.count(&format!("family.n{}", n1 + n2));
+            run_gk_family(&mut cx, &mut rng, &sc, &contents, agree, thorough);
+        }
+        // format-1 patch maps: the application bits of a group share bitmap bytes (and straddle a byte boundary)
+        for i in 0..if thorough { 40 } else { 6 } {
+            let n = 2 + (i % 2) as usize;
+            let start: u16 = *rng.pick(&[1u16, 5, 6, 7, 8, 11]);
+            let mut idx: Vec<u16> = (0..n as u16).map(|k| start + k).collect();
+            if i % 2 == 1 {
+                rng.shuffle(&mut idx);
+            }
+            let ng = n + 1 + rng.below(3) as usize;
+            let sc = gk_scenario_format1(&mut rng, &idx, i % 2 == 0, ng, n == 2 && i % 4 == 2);
+            let agree = i % 4 != 3;
+            let nn = sc.entries.len();
+            let contents = random_contents(&mut rng, nn, ng, agree, (i % 3) as u8, false);
+            cx.st.count("family.format1");
             run_gk_family(&mut cx, &mut rng, &sc, &contents, agree, thorough);
         }
         for _ in 0..if thorough { 3000 } else { 420 } {
